@@ -46,6 +46,13 @@ def run(rep, ctx):
         borrow(rep, c05.r2_getinfo, ctx, "C05.R2", "C14.R10", keep=lambda o: o.key == "GetInfo:first-lookup-as-given")
     except AnalysisError as e:
         rep.error("C14.R10", str(e))
+    from . import c16, c20
+    rep.rule("C14.R11", "a registered unit builds a Quantity under the spelling it was registered with: the constructor stores the unit as asked, and falls back to the rewritten legacy spelling only after the unit as given was refused (shared with C20.R3 / C16.R4)")
+    try:
+        borrow(rep, c20.r3_simple, ctx, "C20.R3", "C14.R11", keep=lambda o: "Quantity.__init__" in o.key)
+        borrow(rep, c16.r4_sites, ctx, "C16.R4", "C14.R11", keep=lambda o: "Quantity.__init__" in o.key)
+    except AnalysisError as e:
+        rep.error("C14.R11", str(e))
     rep.run_rule("C14.R8", "registration code: every given or inherited default value is asserted against the final limits; derived defaults only from inclusive limits; default unit drawn from the quantity type", c12.r6_registration, ctx, "C14.R8")
     rep.not_decided += [
         "step-by-step agreement with a reference model for arbitrary argument values (only ordering, ownership and table facts are decided)",
